@@ -16,14 +16,21 @@ Public API (keep it small):
                                       (e = 0, t1 = 0: the initial value)
     initial_state(chains, shapes)     stacked (chain axis first) DictInterface state
     TracerKernel / MixinTracerKernel  the kernels (``make_kernel(spec, index)``)
-    TracerQuantity                    a QuantityGenerator (value = 2 * first leaf + time tag)
+    TracerQuantity                    a QuantityGenerator ("value" = 2 * first element of a key,
+                                      "tag" = epoch clock it saw)
     build(cfg) -> Lab                 builds a real Engine from a JSON-able config,
                                       through ``EngineBuilder`` or the ``Engine`` constructor
     Lab.run(path)                     executes an append/sample interleaving
     Lab.logs()                        decoded logs: [kernel][chain] -> list of row dicts
-    paths(n, p)                       all interleavings of append_epoch / sample_next_epoch /
+    paths(n, p, min_pending_for_all)  all interleavings of append_epoch / sample_next_epoch /
                                       sample_all_epochs for n epochs of which p are given
                                       at construction
+    TracerBase(..., error_fn=, update="key")   hooks for C19 (scripted error codes) and C10
+                                      (key-driven positions; key words are in every log row).
+    Notes for importers: the builder route falls back to writing ``_model_state`` when
+    ``set_initial_values(multiple_chains=True)`` raises UnboundLocalError (pre-fix trees);
+    values encode c <= 9 chains, e <= 9 epochs, t+1 <= 99 (more chains: pass your own
+    initial state / decode modulo); log overflow raises in ``Lab.logs()``.
     enable_compilation_cache()        per-run XLA compilation cache (deleted at exit)
     release_memory()                  drops jax's in-memory executables (build() does it every 20 engines)
 
